@@ -45,7 +45,7 @@ EXPECTED_PROBES = ["roundtrip_request", "roundtrip_response", "piv_len_1", "piv_
                    "piv_len_5", "fault_flip_opt", "fault_flip_ct", "fault_piv", "fault_kid", "fault_ctx", "fault_flags",
                    "fault_trunc", "fault_drop_opt", "fault_swap_ct", "fault_swap_opt", "foreign_keys", "cross_pairing",
                    "cross_pairing_other_context", "response_own_piv", "response_replayed", "id_context_present",
-                   "empty_sender_id", "allflips_messages", "rejected_decode_error", "rejected_tag"]
+                   "empty_sender_id", "allflips_messages", "rejected_decode_error", "rejected_tag", "both_directions"]
 
 MAX_SEQNO = 2 ** 40 - 1
 ALGS = ["AES-CCM-16-64-128", "AES-CCM-16-64-256", "AES-CCM-64-64-128", "AES-CCM-64-64-256",
@@ -219,6 +219,13 @@ def gen(r, tier):
             "cross_other": r.chance(0.2),
             "replay_resp": r.chance(0.15),
         })
+    if r.chance(0.3):
+        # both ends use their context in both roles: some exchanges run the other way round (B asks, A answers), and
+        # the two senders' sequence numbers may well coincide (they are counted per sender)
+        for op in ops:
+            op["rev"] = r.chance(0.5)
+        if r.chance(0.6):
+            ctx["seq_b"] = ctx["seq_a"]
     return {"ctx": ctx, "ops": ops}
 
 
@@ -257,6 +264,11 @@ def corpus():
                 "ops": [_simple_op(cross=[1, 2], cross_other=True, foreign=["secret", "salt", "idctx", "reflect", "alg"]),
                         _simple_op(cross=[0, 2], own_piv=True, replay_resp=True),
                         _simple_op(cross=[0, 1], cross_other=True)], "name": "cross-pairing"})
+    # both ends ask and answer with one context each, the two senders' sequence numbers coinciding
+    for own in (False, True):
+        out.append({"ctx": _fixed_ctx(sid="01", rid="02", seq_a=0, seq_b=0),
+                    "ops": [_simple_op(own_piv=own), _simple_op(rev=True, own_piv=own), _simple_op(rev=True, cross=[0]),
+                            _simple_op(cross=[0], own_piv=own), _simple_op(rev=True, own_piv=own)], "name": "both-directions"})
     # RFC 8613 C.4 shaped exchange with every bit flipped
     out.append({"ctx": _fixed_ctx(), "ops": [_simple_op(req_faults=[["allflips"]], resp_faults=[["allflips"]])],
                 "name": "rfc8613-c4-allflips"})
@@ -556,6 +568,7 @@ def execute(sim, scn):
     A = mk(sid, rid, seq=c.get("seq_a", 0))
     B = mk(rid, sid, seq=c.get("seq_b", 0))
     Bs = mk(rid, sid)  # shadow receiver of faulted requests: same keys, window reset before every delivery
+    As = mk(sid, rid)  # the same for exchanges in the other direction (B asks, A answers)
     other_secret = bytes(b ^ 0x5A for b in secret)
     A2 = mk(sid, rid, secret_=other_secret, seq=c.get("seq_a", 0))  # another pair with the same IDs and numbers
     B2 = mk(rid, sid, secret_=other_secret, seq=c.get("seq_b", 0))
@@ -671,6 +684,15 @@ def execute(sim, scn):
 
     ops = scn["ops"]
     n_ops = len(ops)
+
+    def roles(op):
+        """who asks and who answers in this exchange: both ends use their one context in both roles"""
+        if op.get("rev"):
+            return {"P": B, "Q": A, "Qs": As, "P2": B2, "p_sid": rid, "q_sid": sid, "rev": True}
+        return {"P": A, "Q": B, "Qs": Bs, "P2": A2, "p_sid": sid, "q_sid": rid, "rev": False}
+
+    if any(op.get("rev") for op in ops):
+        sim.probe("both_directions")
     # pass 1: protect all requests first, so that cut-and-paste and cross pairing have material
     prepared = []
     for i, op in enumerate(ops):
@@ -680,7 +702,7 @@ def execute(sim, scn):
                                 bytes.fromhex(spec["payload"]))
         kc = True if c.get("send_ctx", True) else False
         try:
-            outer, rid_a = A.protect(msg, kid_context=kc)
+            outer, rid_a = roles(op)["P"].protect(msg, kid_context=kc)
         except osc.ContextUnavailable:
             sim.probe("sender_exhausted")
             prepared.append(None)
@@ -702,7 +724,7 @@ def execute(sim, scn):
         prepared.append((data, ref))
         # the same request in the other context pair (for cross pairing across contexts)
         try:
-            _, rid_a2 = A2.protect(env.build_message(spec["code"], [(n, bytes.fromhex(v)) for n, v in spec["opts"]],
+            _, rid_a2 = roles(op)["P2"].protect(env.build_message(spec["code"], [(n, bytes.fromhex(v)) for n, v in spec["opts"]],
                                                      bytes.fromhex(spec["payload"])), kid_context=kc)
             rids_a2.append(rid_a2)
         except Exception:
@@ -714,16 +736,17 @@ def execute(sim, scn):
             continue
         data, ref = prepared[i]
         spec = op["req"]
+        R = roles(op)
         orig_opt = rc.opt1(ref, rc.OSCORE) or b""
         # --- faulted copies of the request first (they must not disturb the intact one)
         for fault in op.get("req_faults") or []:
             if fault[0] == "allflips":
                 sim.probe("allflips_messages")
             for (label, mut, new_opt, ctch) in apply_fault(env, ref, fault, req_refs):
-                deliver_faulted(i, "request", label, mut, new_opt, ctch, orig_opt, Bs, None, True, sid, idctx, fault)
+                deliver_faulted(i, "request", label, mut, new_opt, ctch, orig_opt, R["Qs"], None, True, R["p_sid"], idctx, fault)
         for kind in op.get("foreign") or []:
             sim.probe("foreign_keys")
-            F = foreign(kind, True)
+            F = foreign(kind, not R["rev"])
             state["faulted"] += 1
             try:
                 F.unprotect(env.from_wire(data))
@@ -736,7 +759,7 @@ def execute(sim, scn):
                 sim.violation("C11/foreign-keys-accepted", dict(ident(i, "request"), foreign=kind))
         # --- intact delivery
         try:
-            got, rid_b = B.unprotect(env.from_wire(data))
+            got, rid_b = R["Q"].unprotect(env.from_wire(data))
         except Exception as e:
             sim.violation("C11/intact-message-rejected", dict(ident(i, "request"), error="%s: %s" % (
                 type(e).__name__, str(e)[:120])))
@@ -753,7 +776,7 @@ def execute(sim, scn):
             rmsg = env.build_message(rspec["code"], [(n, bytes.fromhex(v)) for n, v in rspec["opts"]],
                                      bytes.fromhex(rspec["payload"]))
             try:
-                router, _ = B.protect(rmsg, rid_b)
+                router, _ = R["Q"].protect(rmsg, rid_b)
             except osc.ContextUnavailable:
                 sim.probe("sender_exhausted")
                 break
@@ -774,11 +797,11 @@ def execute(sim, scn):
                 if fault[0] == "allflips":
                     sim.probe("allflips_messages")
                 for (label, mut, new_opt, ctch) in apply_fault(env, rref, fault, resp_refs):
-                    deliver_faulted(i, side, label, mut, new_opt, ctch, ropt, A, rids_a[i], False, rid, idctx, fault)
+                    deliver_faulted(i, side, label, mut, new_opt, ctch, ropt, R["P"], rids_a[i], False, R["q_sid"], idctx, fault)
             for kind in op.get("foreign") or []:
                 if kind == "reflect":
                     continue
-                F = foreign(kind, False)
+                F = foreign(kind, R["rev"])
                 state["faulted"] += 1
                 try:
                     F.unprotect(env.from_wire(rdata), rids_a[i])
@@ -791,14 +814,14 @@ def execute(sim, scn):
                     sim.violation("C11/foreign-keys-accepted", dict(ident(i, side), foreign=kind))
             # the response delivered as the answer to another request
             for j in op.get("cross") or []:
-                cands = [k for k in range(n_ops) if k != i and rids_a[k] is not None]
+                cands = [k for k in range(n_ops) if k != i and rids_a[k] is not None and bool(ops[k].get("rev")) == R["rev"]]
                 if not cands:
                     break
                 k = cands[j % len(cands)]
                 sim.probe("cross_pairing")
                 state["faulted"] += 1
                 try:
-                    A.unprotect(env.from_wire(rdata), rids_a[k])
+                    R["P"].unprotect(env.from_wire(rdata), rids_a[k])
                 except osc.ProtectionInvalid:
                     pass
                 except Exception as e:
@@ -812,7 +835,7 @@ def execute(sim, scn):
                 sim.probe("cross_pairing_other_context")
                 state["faulted"] += 1
                 try:
-                    A2.unprotect(env.from_wire(rdata), rids_a2[i])
+                    R["P2"].unprotect(env.from_wire(rdata), rids_a2[i])
                 except osc.ProtectionInvalid:
                     pass
                 except Exception as e:
@@ -822,7 +845,7 @@ def execute(sim, scn):
                     sim.violation("C11/response-accepted-in-other-context", ident(i, side))
             # intact delivery (and a replay of it to the same request, which OSCORE does not forbid)
             try:
-                rgot, _ = A.unprotect(env.from_wire(rdata), rids_a[i])
+                rgot, _ = R["P"].unprotect(env.from_wire(rdata), rids_a[i])
             except Exception as e:
                 sim.violation("C11/intact-message-rejected", dict(ident(i, side), error="%s: %s" % (
                     type(e).__name__, str(e)[:120])))
@@ -832,7 +855,7 @@ def execute(sim, scn):
             if op.get("replay_resp"):
                 sim.probe("response_replayed")
                 try:
-                    A.unprotect(env.from_wire(rdata), rids_a[i])
+                    R["P"].unprotect(env.from_wire(rdata), rids_a[i])
                     sim.probe("response_replay_accepted")
                 except osc.ProtectionInvalid:
                     sim.probe("response_replay_rejected")
